@@ -291,6 +291,18 @@ func (ff *FuncFacts) rawRange(v ssa.Value, at *ssa.BasicBlock, depth int, tr Int
 		}
 	case *ssa.UnOp:
 		if x.Op == token.MUL {
+			// element of []rune(string): a Unicode code point (language spec: string -> []rune conversion)
+			if ia, ok := x.X.(*ssa.IndexAddr); ok {
+				if cv, ok := ia.X.(*ssa.Convert); ok {
+					if b, ok := cv.X.Type().Underlying().(*types.Basic); ok && b.Info()&types.IsString != 0 {
+						if st, ok := cv.Type().Underlying().(*types.Slice); ok {
+							if eb, ok := st.Elem().Underlying().(*types.Basic); ok && eb.Kind() == types.Int32 {
+								return Interval{big.NewInt(0), big.NewInt(0x10FFFF)}
+							}
+						}
+					}
+				}
+			}
 			if fa, ok := x.X.(*ssa.FieldAddr); ok {
 				if st := derefStruct(fa.X.Type()); st != nil {
 					if iv, ok := ff.P.fieldRange(st.Field(fa.Field)); ok && within(iv, tr) {
